@@ -3,6 +3,7 @@ package main
 import (
 	"fmt"
 	"strconv"
+	"strings"
 
 	"github.com/woodsbury/jmespath"
 )
@@ -10,16 +11,17 @@ import (
 func init() { generators["C08"] = genC08 }
 
 type fault struct {
-	expr   string
-	cat    string // expected category
-	static bool   // decided by the expression text alone
+	expr    string
+	cat     string // expected category
+	static  bool   // decided by the expression text alone
+	wrapped bool   // a catalogue fault placed inside another construct
 }
 
 func c08Faults() []fault {
 	fs := []fault{}
 	add := func(cat string, static bool, exprs ...string) {
 		for _, e := range exprs {
-			fs = append(fs, fault{e, cat, static})
+			fs = append(fs, fault{e, cat, static, false})
 		}
 	}
 	add("CSyntax", true, "a.", "a[", "a[0", "a.b.", "(a", "a)", "a b", "a ||", "|| a", "a[?b", "a[?]", "{a}", "{a:}", "{: a}", "[a,]", "[,a]",
@@ -31,6 +33,15 @@ func c08Faults() []fault {
 	add("CUnknownFunction", true, "foo(a)", "lenght(a)", "ABS(a)", "to_int(a)", "a.foo(b)", "[foo(a)]", "a[?foo(@)]", "sort_by(a, &foo(@))")
 	add("CInvalidType", true, "sort_by(a, b)", "max_by(a, b)", "min_by(a, `1`)", "group_by(a, 'x')", "map(a, b)", "map(b, &a)")
 	add("CInvalidValue", true, "a[::0]", "a[1:2:0]", "[::0]", "a[*][::0]")
+	// the same static faults inside every construct that holds a sub-expression: the category is the fault's
+	for _, f := range append([]fault{}, fs...) {
+		if f.cat == "CSyntax" {
+			continue
+		}
+		for _, ctx := range []string{"let $x = %s in $x", "let $x = `1` in %s", "let $x = `1`, $y = %s in $x", "a[?%s]", "[%s]", "{k: %s}", "a | %s", "a.b || %s", "%s && a", "!(%s)", "(%s)", "a[*].[%s]", "sort_by(a, &%s)", "map(&%s, a)", "not_null(a, %s)", "abs(%s)", "a[?b == %s]", "[a, [b, %s]]", "a[?let $v = %s in $v]", "%s | a", "`1` + %s", "- %s"} {
+			fs = append(fs, fault{fmt.Sprintf(ctx, f.expr), f.cat, true, true})
+		}
+	}
 	// run-time faults (the document decides)
 	add("CInvalidType", false, "abs('x')", "abs(s)", "length(`1`)", "length(n)", "sort(o)", "sort(mixed)", "join(',', nums)", "join(`1`, strs)", "keys(arr)", "values(s)",
 		"max(mixed)", "sum(strs)", "avg(o)", "ceil(s)", "floor(arr)", "starts_with(n, 'a')", "ends_with(s, n)", "reverse(n)", "to_string(s) + `1`", "n + s", "s * n", "arr / n", "n % o",
@@ -58,6 +69,7 @@ func genC08(tier, out string, sum *Summary) {
 	}
 	id := 0
 	distinct := map[string]bool{}
+	emitToModel := true
 	check := func(expr string, doc any, want string, static bool) Obs {
 		o := search(expr, doc)
 		id++
@@ -76,8 +88,8 @@ func genC08(tier, out string, sum *Summary) {
 		} else if want != "" && static {
 			sum.direct("category", expr, doc, "expected a "+want+" error, got "+describe(o))
 		}
-		if modelled(doc) {
-			sh.Add(fmt.Sprintf("BC %d %s %s false %s", id, hx(expr), coqValue(doc), coqObs(o)))
+		if modelled(doc) && emitToModel && !(hasEnumText(expr) == "true" && strings.ContainsAny(expr, "[<>=!")) {
+			sh.Add(fmt.Sprintf("BC %d %s %s %s %s", id, hx(expr), coqValue(doc), hasEnumText(expr), coqObs(o)))
 		}
 		sid := strconv.Itoa(id)
 		sum.Index[sid] = map[string]any{"expr": expr, "doc": toJSON(doc), "observed": obsJSON(o)}
@@ -102,7 +114,9 @@ func genC08(tier, out string, sum *Summary) {
 				_ = cerr.Error()
 				var first Obs
 				for di, doc := range docs {
+					emitToModel = di == 0 || !f.wrapped // a static fault is the same for every document: the model sees the wrapped ones once
 					o := check(f.expr, doc, f.cat, true)
+					emitToModel = true
 					if di == 0 {
 						first = o
 					} else if !sameObs(first, o, false) {
